@@ -53,6 +53,11 @@ def oracle_fill(system, cols, vals, T, outcome, kw=None):
     out = fc.as_map(outcome)
     # 1. every non-vanishing component is present and equals the invariant tensor; vanishing ones are omitted
     for i, s in enumerate(fc.SYMS):
+        if i in nz and float(numpy.max(numpy.abs(T[:, i]))) <= 1e-12 * scale:
+            # allowed by the system but zero in THIS tensor (a tensor of a higher symmetry): a vanishing component, omitted
+            if s in out and float(numpy.max(numpy.abs(out[s]))) > RTOL * scale:
+                fails.append((f"component {s} vanishes in the invariant tensor but is returned non-zero", out[s], "omitted / 0"))
+            continue
         if i in nz:
             if s not in out:
                 fails.append((f"component {s} missing from the filled table", None, T[:, i].tolist())); continue
@@ -67,7 +72,7 @@ def oracle_fill(system, cols, vals, T, outcome, kw=None):
         if key in out:
             if float(numpy.max(numpy.abs(numpy.array(out[key]) - numpy.array(col)))) > RTOL * max(scale, max(abs(x) for x in col)):
                 fails.append((f"supplied column {name} changed", out[key], col))
-        elif not (key in fc.SYMS and fc.SYMS.index(key) not in nz):
+        elif not (key in fc.SYMS and (fc.SYMS.index(key) not in nz or max(abs(x) for x in col) <= 1e-12 * scale)):
             fails.append((f"column {name} disappeared", None, col))
     # 3. the rebuilt full tensor is invariant under the explicit rotations of the Laue class
     for r in range(T.shape[0]):
@@ -81,7 +86,7 @@ def oracle_fill(system, cols, vals, T, outcome, kw=None):
 DEFAULT_SYMMETRY_BLOCK = {"ignore_residuals": False, "ignore_rank": False, "drop_atol": 1.0e-8, "residual_atol": 0.1}   # documented defaults
 
 
-def run_elastdata(system, T, supplied, full_block=False):
+def run_elastdata(system, T, supplied, full_block=False, symmetry=None):
     """apply_symetry_on_elast_data on an ElastData built from the supplied components; `full_block`: the symmetry block as the
     Calculator passes it (system + the four documented default settings) instead of the bare {"system": ...}."""
     from cij.io.traditional.elast_dat import ElastData, ElastVolumeData, apply_symetry_on_elast_data
@@ -91,7 +96,9 @@ def run_elastdata(system, T, supplied, full_block=False):
         vols.append(ElastVolumeData(100.0 + r, dict((c_(fc.SYMS[i][1:]), float(T[r, i])) for i in supplied)))
     data = ElastData(100.0, T.shape[0], 10.0, vols, [])
     try:
-        apply_symetry_on_elast_data(data, dict(DEFAULT_SYMMETRY_BLOCK, system=system) if full_block else {"system": system})
+        if symmetry is None:
+            symmetry = dict(DEFAULT_SYMMETRY_BLOCK, system=system) if full_block else {"system": system}
+        apply_symetry_on_elast_data(data, symmetry)       # `symmetry` may be a dict the caller keeps and passes again
     except BaseException as e:
         if isinstance(e, (KeyboardInterrupt, SystemExit)): raise
         return {"status": fc.classify(e)}
@@ -229,8 +236,47 @@ def run(ctx: Ctx) -> Result:
             for what, obs, exp in fails[:2]:
                 res.oracle_failures.append(OracleFailure(what="apply_symetry_on_elast_data (small values): " + what, input=payload,
                                                          observed=obs, expected=exp, site=f"c08:elastdata-small:{system}"))
+    # a tensor of a HIGHER symmetry filled as a lower system: components the lower system allows are supplied as explicit zero
+    # columns (hexagonal tensor as trigonal: c14 = c15 = 0; 4/mmm tensor as tetragonal7: c16 = 0; orthorhombic as monoclinic; any as
+    # triclinic).  An explicit zero is data: the table is sufficient and consistent and must be filled, not refused.
+    n_sup = 0
+    for low, high in (("trigonal7", "hexagonal"), ("trigonal6", "hexagonal"), ("tetragonal7", "tetragonal6"), ("monoclinic", "orthorhombic"),
+                      ("triclinic", "monoclinic"), ("orthorhombic", "tetragonal6"), ("tetragonal6", "cubic")):
+        mins = fc.minimal_sufficient_subsets(low)
+        for rep in range(3 if ctx.thorough() else 1):
+            S = mins[int(rng.integers(0, len(mins)))]
+            T = fc.random_invariant(high, int(rng.integers(1, 5)), rng)
+            cols, vals = build_case(low, T, S, bool(rep % 2), rng)
+            out = fc.run_impl(cols, vals, low)
+            res.evaluations += 1; n_sup += 1
+            payload = {"system": low, "columns": cols, "values": vals, "tensor": T.tolist(), "of_higher_symmetry": high}
+            fails = oracle_fill(low, cols, vals, T, out)
+            if not fails: res.traces_validated += 1
+            for what, obs, exp in fails[:2]:
+                res.oracle_failures.append(OracleFailure(what=f"{high} tensor filled as {low}: " + what, input=payload,
+                                                         observed=obs, expected=exp, site=f"c08:higher-symmetry:{low}"))
+    # the same settings dictionary passed for several tables in a row (a driver looping over files): every call fills
+    n_shared = 0
+    for system in [fc.SYSTEMS[(ctx.seed + k) % len(fc.SYSTEMS)] for k in range(3)]:
+        if system == "triclinic": continue
+        shared = dict(DEFAULT_SYMMETRY_BLOCK, system=system)
+        mins = fc.minimal_sufficient_subsets(system)
+        for rep in range(3):
+            S = mins[int(rng.integers(0, len(mins)))]
+            T = fc.random_invariant(system, int(rng.integers(1, 4)), rng)
+            out = run_elastdata(system, T, S, symmetry=shared)
+            res.evaluations += 1; n_shared += 1
+            cols, vals = build_case(system, T, S, False, rng)
+            fails = oracle_fill(system, cols, vals, T, out)
+            if not fails: res.traces_validated += 1
+            for what, obs, exp in fails[:2]:
+                res.oracle_failures.append(OracleFailure(what=f"apply_symetry_on_elast_data, call {rep + 1} with the same settings dictionary: " + what,
+                                                         input={"check": "elastdata-shared", "system": system, "calls": rep + 1, "supplied": list(S), "tensor": T.tolist()},
+                                                         observed=obs, expected=exp, site=f"c08:elastdata-shared:{system}"))
     res.distribution["apply_symetry_on_elast_data_cases"] = n_el
     res.distribution["apply_symetry_on_elast_data_small_value_cases"] = n_small
+    res.distribution["higher_symmetry_tensor_cases"] = n_sup
+    res.distribution["shared_settings_dict_calls"] = n_shared
     res.notes.append("all minimal sufficient subsets of all nine systems are exercised in every tier (314 subsets)")
     return res
 
@@ -254,7 +300,14 @@ def search(ctx: Ctx, res: Result):
 def replay(ctx: Ctx, payload):
     T = numpy.array(payload["tensor"], dtype=float)
     system = payload["system"]
-    if payload.get("check") == "elastdata":
+    if payload.get("check") == "elastdata-shared":
+        shared = dict(DEFAULT_SYMMETRY_BLOCK, system=system)
+        S = payload["supplied"]
+        for _ in range(int(payload.get("calls", 2)) - 1):
+            run_elastdata(system, T, S, symmetry=shared)
+        out = run_elastdata(system, T, S, symmetry=shared)
+        cols, vals = build_case(system, T, S, False, None)
+    elif payload.get("check") == "elastdata":
         S = payload["supplied"]
         out = run_elastdata(system, T, S, full_block=bool(payload.get("full_block")))
         cols, vals = build_case(system, T, S, False, None)
